@@ -824,8 +824,10 @@ def _reads_state(e):
 
 
 def _index_arith(e):
-    """a number: names, numeric constants, + - * // %, unary minus, x.shape[k]"""
+    """a number: names, numeric constants, + - * // %, unary minus, x.shape[k]  (and type(x): the class of an object is as fixed)"""
     if isinstance(e, ast.Name):
+        return True
+    if isinstance(e, ast.Call) and isinstance(e.func, ast.Name) and e.func.id == "type" and len(e.args) == 1 and isinstance(e.args[0], ast.Name) and not e.keywords:
         return True
     if isinstance(e, ast.Constant):
         return isinstance(e.value, (int, float)) and not isinstance(e.value, bool)
@@ -1471,6 +1473,36 @@ class _Spellings(ast.NodeTransformer):
 
     def visit_Assert(self, n):
         return n
+
+    def visit_UnaryOp(self, n):
+        self.generic_visit(n)
+        # not len(x)  ==  len(x) == 0     (len returns an int)
+        if isinstance(n.op, ast.Not) and isinstance(n.operand, ast.Call) and isinstance(n.operand.func, ast.Name) and n.operand.func.id == "len" and len(n.operand.args) == 1:
+            return ast.Compare(left=n.operand, ops=[ast.Eq()], comparators=[ast.Constant(value=0)])
+        return n
+
+    def visit_BoolOp(self, n):
+        self.generic_visit(n)
+        # isinstance(x, A) or isinstance(x, B)  ==  isinstance(x, (A, B))     (adjacent, same object)
+        if isinstance(n.op, ast.Or):
+            out = []
+            for v in n.values:
+                prev = out[-1] if out else None
+                if self._isinst(v) and prev is not None and self._isinst(prev) and ast.unparse(prev.args[0]) == ast.unparse(v.args[0]):
+                    a_, b_ = prev.args[1], v.args[1]
+                    ea = list(a_.elts) if isinstance(a_, ast.Tuple) else [a_]
+                    eb = list(b_.elts) if isinstance(b_, ast.Tuple) else [b_]
+                    out[-1] = ast.Call(func=prev.func, args=[prev.args[0], ast.Tuple(elts=ea + eb, ctx=ast.Load())], keywords=[])
+                else:
+                    out.append(v)
+            if len(out) == 1:
+                return out[0]
+            n.values = out
+        return n
+
+    @staticmethod
+    def _isinst(v):
+        return isinstance(v, ast.Call) and isinstance(v.func, ast.Name) and v.func.id == "isinstance" and len(v.args) == 2 and not v.keywords
 
     def visit_For(self, n):
         self.generic_visit(n)
